@@ -263,6 +263,9 @@ TEMPLATES = [
     ("on_gosub", "ON {n} GOSUB 100", []),
     ("read_sub", "READ M( {n} )", ["DATA 1"]),
     ("input_sub", "INPUT M( {n} )", []),
+    ("for_oneline_end", "FOR I = 1 TO {n} : Z = Z + 1 : NEXT I", []),
+    ("for_oneline_start", "FOR I = {n} TO 9 : Z = Z + 1 : NEXT I", []),
+    ("for_oneline_step", "FOR I = 1 TO 9 STEP {n} : Z = Z + 1 : NEXT", []),
     ("poke", "POKE {n} , {n}", []),
     ("poke_fast", "POKE 65497 , {n}", []),
     ("poke_slow", "POKE 65496 , {n}", []),
